@@ -26,6 +26,10 @@ var c02Risky = []struct{ key, src string }{
 	{"sleep-nan", "sleep 0/0\nprint 1\n"},
 	{"exit-nan", "exit 0/0\n"},
 	{"empty-times", "x := [] * 3\nprint x\n"},
+	// repeating the EMPTY array a huge number of times: the element-count cap (6185acc) does not apply (0 elements),
+	// and the loop ran `count` times doing nothing - a hang that cannot be interrupted (no yield inside)
+	{"empty-repetition-huge-count-hangs", "x:[]num\nx = x * 9007199254740992\nprint \"done\" x\n"},
+	{"empty-repetition-huge-count-hangs", "print ([] * 4000000000) ([[]][0] * 1e18)\n"},
 	{"empty-plus", "x := [] + []\nprint x (typeof x)\n"},
 	{"assert-empty", "a:any\na = []\nprint a.([]any)\n"},
 }
